@@ -355,9 +355,127 @@ def c07_closed(m, o):
     return {"checks": checks, "violations": viol}
 
 
+def c16(m, o):
+    """time-function library vs NumPy / pandas definitions, on inputs built here"""
+    import random
+    import pandas as pd
+    from jax import numpy as jnp
+    from summer2.functions import time as stf
+    from summer2.functions import derived as sfd
+    from summer2.functions.util import capture_array
+    from summer2.parameters import Parameter, Data, Time
+    rng = random.Random(o.get("seed", 0))
+    viol, checks = [], 0
+
+    def positions(xs):
+        ts = [xs[0] - 1.5, xs[0] - 1e-9, xs[-1] + 1e-9, xs[-1] + 2.0]
+        for a in xs:
+            ts += [a, a - 1e-7, a + 1e-7]
+        for a, b in zip(xs, xs[1:]):
+            ts += [(a + b) / 2, a + 0.25 * (b - a)]
+        return sorted(ts)
+
+    for case in range(o.get("n", 30)):
+        n = rng.randint(2, o.get("maxlen", 7))
+        xs = sorted(rng.sample([i / 2 for i in range(-8, 40)], n))
+        ys = [rng.randint(-20, 60) / 4 for _ in xs]
+        ts = positions(xs)
+        form = case % 4
+        params = {"y0": ys[0], "x1": xs[1]}
+        if form == 0:
+            xa, ya = np.array(xs), np.array(ys)
+        elif form == 1:
+            xa, ya = list(xs), [Parameter("y0")] + ys[1:]
+        elif form == 2:
+            xa, ya = Data(jnp.array(xs)), Data(jnp.array(ys))
+        else:
+            xa, ya = [xs[0], Parameter("x1")] + xs[2:], list(ys)
+        # linear
+        f = stf.get_time_callable(stf.get_linear_interpolation_function(xa, ya), jit_compile=False)
+        exp = np.interp(ts, xs, ys)
+        got_s = np.array([float(f(t, params)) for t in ts])
+        got_v = np.asarray(f(np.array(ts), params), dtype=float)
+        checks += 2
+        if np.abs(got_s - exp).max() > 1e-9 * (1 + np.abs(exp).max()):
+            i = int(np.abs(got_s - exp).argmax())
+            viol.append("linear interpolation x=%s y=%s at t=%r: %r, piecewise-linear interpolant gives %r" % (xs, ys, ts[i], got_s[i], exp[i]))
+        if np.abs(got_v - exp).max() > 1e-9 * (1 + np.abs(exp).max()):
+            viol.append("linear interpolation (vectorised) differs from np.interp for x=%s" % xs)
+        # piecewise
+        vals = [rng.randint(-20, 60) / 4 for _ in range(n + 1)]
+        if form == 1:
+            va = [Parameter("y0")] + vals[1:]
+            vals_eff = [ys[0]] + vals[1:]
+        else:
+            va, vals_eff = (np.array(vals) if form == 0 else list(vals)), vals
+        fpw = stf.get_time_callable(stf.get_piecewise_function(np.array(xs) if form != 3 else list(xs), va), jit_compile=False)
+        exp = np.array([vals_eff[int((t >= np.array(xs)).sum())] for t in ts])
+        got = np.array([float(fpw(t, params)) for t in ts])
+        checks += 1
+        if np.abs(got - exp).max() > 0:
+            i = int(np.abs(got - exp).argmax())
+            viol.append("piecewise breakpoints=%s values=%s at x=%r: %r, values[#{b<=x}] = %r" % (xs, vals_eff, ts[i], got[i], exp[i]))
+        # one breakpoint
+        f1 = stf.get_time_callable(stf.get_piecewise_function([xs[0]], [1.0, 2.0]), jit_compile=False)
+        checks += 1
+        if [float(f1(xs[0] - 1, {})), float(f1(xs[0], {})), float(f1(xs[0] + 1, {}))] != [1.0, 2.0, 2.0]:
+            viol.append("piecewise with one breakpoint %r is not left-closed" % xs[0])
+        # another x-axis: a parameter
+        fp = stf.get_linear_interpolation_function(np.array(xs), np.array(ys), x_axis=Parameter("u"))
+        from computegraph import ComputeGraph
+        cg = ComputeGraph(fp).get_callable()
+        u = (xs[0] + xs[1]) / 2
+        checks += 1
+        if abs(float(cg(parameters={"u": u}, model_variables={"time": 99.0})["out"]) - float(np.interp(u, xs, ys))) > 1e-9 * (1 + abs(max(ys, key=abs))):
+            viol.append("linear interpolation on a parameter x-axis ignores the x-axis argument")
+        # sigmoidal
+        for curv in (16.0, 4.0):
+            fs = stf.get_time_callable(stf.get_sigmoidal_interpolation_function(xa, ya, curvature=curv), jit_compile=False)
+            gs = np.array([float(fs(t, params)) for t in ts])
+            checks += 1
+            for t, g in zip(ts, gs):
+                if t <= xs[0] and abs(g - ys[0]) > 1e-9 * (1 + abs(ys[0])):
+                    viol.append("sigmoidal not constant below the first point (t=%r)" % t)
+                if t >= xs[-1] and abs(g - ys[-1]) > 1e-9 * (1 + abs(ys[-1])):
+                    viol.append("sigmoidal not constant above the last point (t=%r): %r vs %r" % (t, g, ys[-1]))
+            at = np.array([float(fs(a, params)) for a in xs])
+            if np.abs(at - np.array(ys)).max() > 1e-9 * (1 + np.abs(ys).max()):
+                viol.append("sigmoidal (curvature %g) does not pass through the points x=%s y=%s: %s" % (curv, xs, ys, at))
+            for (a, b, ya_, yb_) in zip(xs, xs[1:], ys, ys[1:]):
+                grid = np.linspace(a, b, 9)
+                g = np.array([float(fs(t, params)) for t in grid])
+                lo, hi = min(ya_, yb_), max(ya_, yb_)
+                if (g < lo - 1e-9).any() or (g > hi + 1e-9).any():
+                    viol.append("sigmoidal leaves the range of its neighbours on [%r,%r]" % (a, b))
+                d = np.diff(g) * (1 if yb_ >= ya_ else -1)
+                if (d < -1e-9).any():
+                    viol.append("sigmoidal not monotone on [%r,%r]" % (a, b))
+        fsm = stf.get_time_callable(stf.get_sigmoidal_interpolation_function(xa, ya, curvature=1e-3), jit_compile=False)
+        g = np.array([float(fsm(t, params)) for t in ts])
+        checks += 1
+        if np.abs(g - np.interp(ts, xs, ys)).max() > 1e-4 * (1 + np.abs(ys).max()):
+            viol.append("sigmoidal with curvature 1e-3 is not close to the linear interpolant (max diff %.3g)" % np.abs(g - np.interp(ts, xs, ys)).max())
+        # rolling helpers vs pandas
+        series = np.array([rng.randint(-50, 50) / 4 for _ in range(rng.randint(3, 12))])
+        for periods in range(1, min(4, len(series))):
+            got = np.asarray(sfd.get_rolling_diff(periods)(jnp.array(series)), dtype=float)
+            exp = pd.Series(series).diff(periods).to_numpy()
+            checks += 1
+            if not np.allclose(got, exp, equal_nan=True):
+                viol.append("rolling diff periods=%d on %s: %s, pandas gives %s" % (periods, series, got, exp))
+        for window in range(1, min(5, len(series)) + 1):
+            for fn, name in ((jnp.mean, "mean"), (jnp.max, "max"), (jnp.sum, "sum")):
+                got = np.asarray(sfd.get_rolling_reduction(fn, window)(jnp.array(series)), dtype=float)
+                exp = getattr(pd.Series(series).rolling(window), name)().to_numpy()
+                checks += 1
+                if not np.allclose(got, exp, equal_nan=True):
+                    viol.append("rolling %s window=%d on %s: %s, pandas gives %s" % (name, window, series, got, exp))
+    return {"checks": checks, "violations": viol[:20]}
+
+
 ORACLES = {"c01": c01, "c02": c02}
 MODEL_ORACLES = {"c02_traj": c02_traj, "c13": c13, "c12": c12, "c12_dates": c12_dates,
-                 "c07": c07, "c07_closed": c07_closed}
+                 "c07": c07, "c07_closed": c07_closed, "c16": c16}
 
 
 def run_oracle(m, o):
